@@ -28,13 +28,16 @@ func envStr(k, d string) string {
 type genFunc func(seed int64, idx int, tier string) *Plan
 
 var generators = map[string]genFunc{
-	"deploy":  GenDeploy,
-	"pause":   GenPause,
-	"rollout": GenRollout,
-	"own":     GenOwn,
-	"health":  GenHealth,
-	"snap":    GenSnap,
-	"stress":  GenStress,
+	"deploy":    GenDeploy,
+	"pause":     GenPause,
+	"rollout":   GenRollout,
+	"own":       GenOwn,
+	"health":    GenHealth,
+	"snap":      GenSnap,
+	"stress":    GenStress,
+	"duelown":   GenDuelOwn,
+	"dueldrain": GenDuelDrain,
+	"duelprobe": GenDuelProbe,
 }
 
 type runSummary struct {
